@@ -228,6 +228,28 @@ func runC17(t *testing.T, seed uint64, m *Mask) *Report {
 		if !redial {
 			for j := 0; j < e.Gen.Intn(3); j++ {
 				var res []byte
+				if sameKey && e.Gen.Chance(0.33) {
+					// an application buffer (with spare capacity, as a bytes.Buffer or an append-built slice has) sent
+					// in two secure calls: the plugin must not touch the caller's bytes
+					buf := make([]byte, 0, 160)
+					buf = append(buf, world.GenString(e.Gen, 20+e.Gen.Intn(60), "abcdefghijklmnopqrstuvwxyz0123456789;=")...)
+					orig := string(buf)
+					for k := 0; k < 2; k++ {
+						var arg interface{} = buf
+						if e.Gen.Chance(0.5) {
+							arg = &buf
+						}
+						cmd := sess.Call(rt.Blank, arg, &res, erpc.WithBodyCodec('j'), secure.WithSecureMeta())
+						if want := fmt.Sprintf("blank:%d:%s", len(orig), orig); !cmd.StatusOK() || string(res) != want {
+							e.Fail("C17/handler-argument-differs", "secure call #%d with the same application buffer (%s): %v, the handler saw %q, the caller sent %q", k+1, rep.Cell, cmd.Status(), res, orig)
+						}
+						if string(buf) != orig {
+							e.Fail("C17/caller-buffer-altered", "secure call #%d (%s): the caller's own argument bytes were changed to %q", k+1, rep.Cell, buf)
+						}
+					}
+					e.Probe("c17-same-buffer-sent-twice")
+					continue
+				}
 				if e.Gen.Chance(0.5) {
 					ran := e.Probes["blank-handler-ran"]
 					var arg interface{}
